@@ -1,4 +1,6 @@
 import ComposeVerif.Model.Str
+import ComposeVerif.Model.Template
+import ComposeVerif.Spec.Template
 /-!
 # Model of the service environment / label layering (C16)
 
@@ -55,31 +57,34 @@ def ofMWE (m : List (Key × Option Str)) : List (Key × Str) :=
 
 /-! ## env / label files as tokenised lines -/
 
-inductive Seg
-  | lit (s : Str)      -- literal text (no `$`, quote, `#`, backslash, space, newline)
-  | ref (name : Key)   -- `${name}`
-deriving Repr, DecidableEq
+/-- the value of an assignment: a template of the Compose interpolation grammar (C07's AST: literals, `$$`, `$NAME`,
+    `${NAME}`, `${NAME<op>arg}`); the text the dotenv parser hands to `template.Substitute` is its rendering.
+    Literals contain no quote, `#`, backslash, white space or newline (dotenv lexing is C18's). -/
+abbrev Seg := CV.Template.Seg
 
 inductive Line
-  | assign (k : Key) (v : List Seg)   -- `k=<v>`
+  | assign (k : Key) (v : List Seg)   -- `k=<rendering of v>`
   | bare (k : Key)                    -- `k`      (inherited from the lookup)
   | bad                               -- a line the dotenv parser rejects (`A B=1`)
-deriving Repr, DecidableEq
+deriving Repr
 
 inductive Err
   | notFound   -- "env file … not found" / "label file … not found"
   | format     -- "unsupported env_file format"
   | parse      -- dotenv syntax error
   | read       -- the path exists but cannot be read as a file (a directory)
+  | template   -- `template.Substitute` failed on a value: invalid template or `${X:?msg}` / `${X?msg}` unsatisfied
+  | panic      -- `template.Substitute` would panic (shown unreachable: `Props/C16.no_panic`)
 deriving Repr, DecidableEq
 
 abbrev Look := Key → Option Str
 
-/-- `template.Substitute` on a tokenised value: an unset `${name}` is the empty string -/
-def evalSegs (look : Look) : List Seg → Str
-  | [] => []
-  | .lit s :: r => s ++ evalSegs look r
-  | .ref n :: r => (look n).getD [] ++ evalSegs look r
+/-- `expandVariables`: `template.Substitute` (C07's model) on the text of the value -/
+def evalValue (look : Look) (v : List Seg) : Except Err Str :=
+  match CV.Template.subst look (CV.Template.renderL v) with
+  | .ok s => .ok s
+  | .err _ => .error .template
+  | .panic _ => .error .panic
 
 /-- the mapping `expandVariables` hands to `template.Substitute`: caller's lookup first,
     then the lines of this file parsed so far -/
@@ -91,7 +96,10 @@ def withFile (look : Look) (out : List (Key × Str)) : Look :=
 /-- `parser.parse` over tokenised lines, `out` = the map filled so far -/
 def parseLines (look : Look) : List Line → List (Key × Str) → Except Err (List (Key × Str))
   | [], out => .ok out
-  | .assign k v :: r, out => parseLines look r (insert k (evalSegs (withFile look out) v) out)
+  | .assign k v :: r, out =>
+    match evalValue (withFile look out) v with
+    | .ok val => parseLines look r (insert k val out)
+    | .error e => .error e
   | .bare k :: r, out =>
     match look k with
     | some v => parseLines look r (insert k v out)
@@ -103,7 +111,7 @@ inductive Node
   | dir
   | notdir   -- nothing exists at the path because a *parent* is a regular file: `os.Stat` fails with ENOTDIR
              -- (`fileIsMissing` treats it like ENOENT since the `fix:` commit; before, `os.IsNotExist` did not)
-deriving Repr, DecidableEq
+deriving Repr
 
 abbrev FS := Str → Option Node
 
